@@ -249,6 +249,7 @@ type stdioTransport struct {
 	logger      Logger
 	contextFunc StdioContextFunc
 	session     *stdioSession
+	writeMu     sync.Mutex // Serializes frames written to stdout (payload + newline).
 }
 
 // stdioServerTransportOption configures a stdioTransport.
@@ -522,6 +523,9 @@ func (s *stdioTransport) writeResponse(response interface{}, writer io.Writer) e
 	}
 
 	verifEvent("stdio.write.begin", writer, data)
+	// One frame at a time: responses of concurrent requests and the outgoing message pump share stdout.
+	s.writeMu.Lock()
+	defer s.writeMu.Unlock()
 	if _, err := writer.Write(data); err != nil {
 		return fmt.Errorf("error writing response: %w", err)
 	}
